@@ -8,9 +8,9 @@ import (
 	"verif/harness/internal/core"
 )
 
-// TestSuggestedWitnesses: every entry of known_findings_suggested.json reproduces on the tree
-// this test is built against (it documents the genuine findings of the check; once a defect is
-// repaired its entry stops reproducing and must be dropped or marked fixed).
+// TestSuggestedWitnesses: on the tree this test is built against, every `known` entry of
+// known_findings_suggested.json reproduces and no `fixed` entry does (the file documents the
+// genuine findings of the check and the commits that repaired them).
 func TestSuggestedWitnesses(t *testing.T) {
 	b, err := os.ReadFile("known_findings_suggested.json")
 	if err != nil {
@@ -31,8 +31,11 @@ func TestSuggestedWitnesses(t *testing.T) {
 	for _, x := range f.Findings {
 		ok, detail := witness(s, x)
 		t.Logf("%s: reproduces=%v %s", x.ID, ok, detail)
-		if !ok {
+		if x.Status == "known" && !ok {
 			t.Errorf("%s does not reproduce: %s", x.ID, detail)
+		}
+		if x.Status == "fixed" && ok {
+			t.Errorf("%s is recorded as fixed by %s but reproduces: %s", x.ID, x.Commit, detail)
 		}
 	}
 }
